@@ -34,8 +34,8 @@ import traceback
 from ..core import Case, Prop
 from .. import dumputil as du
 
-QUICK_N = 1200
-THOROUGH_N = 16000
+QUICK_N = 2000
+THOROUGH_N = 12000
 
 PERIODS = {
     "month": ["2018-01", "2018-02", "2017-12", "2016-02", "2018-12", "1000-01", "9999-12"],
